@@ -408,6 +408,12 @@ theorem strict_some {α} {d : Dec α} {b : Bytes} {x : α} : strict d b = some x
     · simp at h
   · intro h; rw [h]
 
+/-- a computable witness test: if the strict parse succeeds, the decoder accepted some value and consumed everything -/
+theorem accepts_of_isSome {α} {d : Dec α} {b : Bytes} (h : (strict d b).isSome = true) : ∃ x, d b = some (x, []) := by
+  cases hs : strict d b with
+  | none => rw [hs] at h; cases h
+  | some x => exact ⟨x, strict_some.mp hs⟩
+
 theorem wfTx_iff_parsed (t : Tx) : wfTx t ↔ ∃ b, strict tx b = some t := by
   constructor
   · intro h
@@ -426,8 +432,9 @@ theorem wfBlock_iff_parsed (x : Block) : wfBlock x ↔ ∃ b, strict block b = s
   · rintro ⟨b, h⟩
     exact decoded_wf_block b x [] (strict_some.mp h)
 
-/-- sharper form: a well-formed value is parsed back, strictly, from its own encoding, and that encoding is the only
-byte string that parses strictly to it -/
+/-- sharper form: the well-formed values are exactly those parsed back, strictly, from their own encoding. (That this
+encoding is the ONLY byte string that parses strictly to the value is not part of this statement; it is
+`strict_preimage_unique_tx` below, a consequence of C01 soundness.) -/
 theorem wfTx_iff_parsed_enc (t : Tx) : wfTx t ↔ strict tx (encTx t) = some t := by
   constructor
   · intro h
@@ -441,5 +448,14 @@ theorem wfBlock_iff_parsed_enc (x : Block) : wfBlock x ↔ strict block (encBloc
     have := complete_block x [] h
     exact strict_some.mpr (by simpa using this)
   · intro h; exact (wfBlock_iff_parsed x).mpr ⟨_, h⟩
+
+/-- the encoding is the only strict preimage: any byte string that parses strictly to `t` is `encTx t` (from soundness) -/
+theorem strict_preimage_unique_tx (t : Tx) (b : Bytes) (h : strict tx b = some t) : b = encTx t := by
+  have := sound_tx b t [] (strict_some.mp h)
+  simpa using this
+
+theorem strict_preimage_unique_block (x : Block) (b : Bytes) (h : strict block b = some x) : b = encBlock x := by
+  have := sound_block b x [] (strict_some.mp h)
+  simpa using this
 
 end Monero
